@@ -28,7 +28,7 @@ func (C13) Plan(tier string) core.Plan {
 
 func (C13) Info() core.Info {
 	return core.Info{
-		Rule:        "planned and random worlds (all label features, converters in every form, generators, defaults, duplicate keys) to whose target 1-2 hopeless parameters are added (sometimes the judged call is preceded by a call of a second Func whose defaults are a prefix of the same defaults slice): no supplied label and no output slot of any converter PERMIT-matches them. Oracle on the returned error: it is the unsatisfied-argument type; Args contains every hopeless parameter; every element of Args is a parameter of the target without an exactly matching supplied value and outside the EXPECT fixpoint; Inputs equals the supplied values as a multiset of labels (after last-wins de-duplication); Converters contains every supplied converter (by function identity); the message contains the rendering of each missing argument. All list comparisons are order-insensitive (S1 decides their order). Non-trivial: >=1 converter and >=1 supplied value; distinct = distinct (world shape, event-log hash)",
+		Rule:        "planned and random worlds (all label features, converters in every form, generators, defaults, duplicate keys) to whose target 1-2 hopeless parameters are added (sometimes the judged call is preceded by a call of a second Func whose defaults are a prefix of the same defaults slice): no supplied label and no output slot of any converter PERMIT-matches them. Oracle on the returned error: it is the unsatisfied-argument type; Args contains every hopeless parameter; every element of Args is a parameter of the target without an exactly matching supplied value and outside the EXPECT fixpoint; Inputs equals the supplied values as a multiset of labels (after last-wins de-duplication); Converters contains every supplied converter (by function identity); the message contains the rendering of each missing argument. All list comparisons are order-insensitive (S1 decides their order); the message must contain the Go type string, name and subtype of every hopeless parameter; also judged after a successful call of the same run-once target. Non-trivial: >=1 converter and >=1 supplied value; distinct = distinct (world shape, event-log hash)",
 		Assumptions: []string{"a converter given as a raw function is identified by its function pointer, one given as *Func by pointer identity"},
 		Probes:      []string{"c13_errors_checked", "c13_args_with_derivable_sibling", "c13_inputs_nonempty", "c13_converters_nonempty", "c13_duplicate_keys", "c13_same_signature_converters", "c13_after_call_of_prefix_sharing_func", "c13_after_successful_call_of_once_target", "s1_nonidentity_perms"},
 		Real:        realComponents,
